@@ -30,6 +30,18 @@ CONFIGS = {
 }
 
 
+_SINGLE = "  filename: graph/generated.go\n  package: graph"
+FED_CONFIGS = {
+    "fed_single": (_SINGLE, "", ""),
+    "fed_follow": ("  layout: follow-schema\n  dir: graph\n  package: graph", "", ""),
+    "fed_explicit": (_SINGLE, "", "  options:\n    explicit_requires: true"),
+    "fed_computed": (_SINGLE, "call_argument_directives_with_null: true\n", "  options:\n    computed_requires: true"),
+    "fed_wl2": (_SINGLE + "\n  worker_limit: 2", "", ""),
+}
+for _k in FED_CONFIGS:
+    CONFIGS[_k] = (FED_CONFIGS[_k][0], FED_CONFIGS[_k][1])
+
+
 def make_probe(probe, cfgname, scratch, env):
     """returns (dir, error) of a freshly generated probe module"""
     src = os.path.join(VERIF, "probes", probe)
@@ -48,7 +60,10 @@ def make_probe(probe, cfgname, scratch, env):
     open(os.path.join(d, "go.mod"), "w").write(GOMOD % REPO)
     shutil.copy(os.path.join(REPO, "go.sum"), os.path.join(d, "go.sum"))
     ex, extra = CONFIGS[cfgname]
-    yml = open(os.path.join(src, "gqlgen.tmpl.yml")).read().replace("@EXEC@", ex).replace("@OPTIONS@", extra)
+    fedopts = ""
+    if cfgname.startswith("fed_"):
+        ex, extra, fedopts = FED_CONFIGS[cfgname]
+    yml = open(os.path.join(src, "gqlgen.tmpl.yml")).read().replace("@EXEC@", ex).replace("@OPTIONS@", extra).replace("@FEDOPTS@", fedopts)
     open(os.path.join(d, "gqlgen.yml"), "w").write(yml)
     r = subprocess.run(["go", "run", "gen_main.go"], cwd=d, env=env, capture_output=True, text=True)
     if r.returncode != 0:
